@@ -34,12 +34,15 @@ STARTS = (32768, 40000, 0x6000, 16384, 'top', 'top')
 # ----------------------------------------------------------------------------------------------
 # documents from the specification (pattern C)
 # ----------------------------------------------------------------------------------------------
+SIM_CFGS = ('CtlDoc_sim.cfg', 'CtlDoc_sim2.cfg', 'CtlDoc_sim.cfg', 'CtlDoc_sim3.cfg')
+
+
 def sim_worker(args):
     k, sd, num, depth, outdir = args
     d = os.path.join(SPEC, 'doc')
     os.makedirs(outdir, exist_ok=True)
     extra = ['-simulate', 'file=%s/tr,num=%d' % (outdir, num), '-depth', str(depth), '-seed', str(sd)]
-    r = tlc.run(d, 'CtlDoc', 'CtlDoc_sim.cfg', workers=1, timeout=900, extra=extra, tag='CtlDoc-sim%d' % k, heap='2g')
+    r = tlc.run(d, 'CtlDoc', SIM_CFGS[k % len(SIM_CFGS)], workers=1, timeout=900, extra=extra, tag='CtlDoc-sim%d' % k, heap='2g')
     states = []
     for fn in sorted(os.listdir(outdir)):
         with open(os.path.join(outdir, fn)) as f:
@@ -62,6 +65,25 @@ def simulate_docs(wd, sd, total, procs=12, depth=60):
     if len(states) < total // 2:
         raise MachineryError('CtlDoc simulation produced %d documents of %d\n%s' % (len(states), total, parts[0][2]))
     return states, sum(p[1] for p in parts)
+
+
+def sweep_docs(wd, cfg):
+    """every finished document within the bounds of cfg: TLC enumerates the reachable states (-dump)"""
+    d = os.path.join(SPEC, 'doc')
+    dump = os.path.join(wd, cfg.replace('.cfg', '') + '.dump')
+    r = tlc.run(d, 'CtlDoc', cfg, workers=4, timeout=900, extra=['-dump', dump], tag='CtlDoc-sweep', heap='4g')
+    tlc.check_machinery(r, 'CtlDoc/' + cfg)
+    if not os.path.isfile(dump):
+        dump += '.dump'
+    with open(dump) as f:
+        text = f.read()
+    states = []
+    for blk in re.split(r'^State \d+:\n', text, flags=re.M)[1:]:
+        if '/\\ closed = TRUE' in blk:
+            states.append(tlc.parse_state(blk.strip('\n')))
+    if len(states) < 100:
+        raise MachineryError('CtlDoc sweep: only %d finished documents' % len(states))
+    return states, r
 
 
 # ----------------------------------------------------------------------------------------------
@@ -200,6 +222,14 @@ def run(tier):
         doc = docdrv.doc_from_state(st, drnd, place(st['top'], drnd))
         for j, (so, co, tail, style) in enumerate(legs_for(doc, drnd, nlegs)):
             jobs.append(('t%05d.%d' % (n, j), 'CtlDoc', doc, sd * 100003 + n * 7 + j, so, co, tail, style))
+    # every small document (one entry b/c, up to three one-statement sub-blocks B/C, one I or M comment)
+    sweep, r = sweep_docs(wd, 'CtlDoc_sweep.cfg')
+    rep.add_tlc(r, 'CtlDoc_sweep')
+    log('C03: %d documents from the exhaustive sweep' % len(sweep))
+    for n, st in enumerate(sweep):
+        doc = docdrv.doc_from_state(st, random.Random(n), 32768, plain=True)
+        for j, co in enumerate(([], ['-k'])):
+            jobs.append(('s%05d.%d' % (n, j), 'sweep', doc, n, [], co, bool(n % 2), 'dec'))
     for n in range(nrand):
         dsd = sd * 1000003 + n
         doc = docdrv.random_doc(dsd)
